@@ -614,4 +614,5 @@ func vDeclarationsNoPanic() (int, []string) {
 //@   props C03 C08
 //@   modifies anything
 //@   unclaimed call-*-pre* "token lists of parsed declarations contain no nil token (a data invariant of the parser's output)"
+//@   loop 2 exit[every-declaration-visited] rangeindex == len(declarations)
 //@   call append#9 assert[own-importance] arg1[0].Important == declaration.Important && arg1[0].Name == np.name && arg1[0].Value == np.property && arg1[0].Shortand == np.shortand
